@@ -96,7 +96,7 @@ func (sc *sched) spawn(name string, fn func()) *gor {
 					return
 				}
 				// uncaught target panic in a goroutine: program crash
-				sc.abortFrom(g, abortPath{"panic", "goroutine " + g.name + ": " + panicString(r)})
+				sc.abortFrom(g, abortPath{"panic", "goroutine " + g.name + ": " + panicString(r) + " at " + sc.ex.it.panicSite})
 				return
 			}
 			if sc.aborted {
